@@ -534,6 +534,8 @@ type LoopSpec struct {
 	Invariants []*Clause
 	Decreases  *Clause
 	Modifies   []string // optional explicit heap frame for the loop
+	Asserts    []*Clause   // `loop K assert E`: proof hint proved at the end of every iteration (on each back edge, before the ghost updates); available to the invariant-preservation obligations
+	Sets       []*GhostUpd // `loop K set target := value`: ghost updates executed at the end of every iteration (on each back edge, before the invariant is re-established)
 }
 
 type FuncContract struct {
@@ -553,6 +555,8 @@ type FuncContract struct {
 	Extern    bool     // assumed, body not verified
 	Trusted   bool     // contract assumed even though body exists (listed as assumption)
 	Inline    bool     // always inline at call sites (no contract use)
+	InlineOnly bool    // never verified stand-alone: its loop invariants are obligations of the units that inline it
+	ViewOnly   bool    // only view-tagged clauses: nothing to verify against the body
 	Pure      bool
 	Params    []string // extern: parameter names (receiver first)
 	Results   []string // extern: result names
@@ -604,6 +608,8 @@ type AxiomDecl struct {
 	File   string
 	Line   int
 	Text   string
+	With   []string // `with a b`: explicit-scope lemmas/axioms imported into the proof of this lemma
+	Induct string // `induction n`: prove the lemma `forall .., n, .. :: P` by induction on the (integer) bound variable n
 }
 
 type TypeContract struct {
@@ -910,6 +916,13 @@ func (cs *ContractSet) loadFile(path string) error {
 						return fmt.Errorf("%s:%d: scope must be int, bv or explicit", path, l.no)
 					}
 					curA.Scope = rest
+				case "with":
+					curA.With = strings.Fields(strings.ReplaceAll(rest, ",", " "))
+				case "induction":
+					// proof method for a lemma `forall ..., n T, ... :: P(n)`: the obligation becomes
+					//   forall ..., n, ... :: (n > 0 ==> P(n-1)) ==> P(n)
+					// (other bound variables fixed).  Sound: for n <= 0 P(n) is proved outright, for n > 0 from P(n-1).
+					curA.Induct = strings.TrimSpace(rest)
 				case "body":
 					e, err := ParseExpr(rest)
 					if err != nil {
@@ -1003,6 +1016,14 @@ func parseFuncClause(f *FuncContract, word, rest string, no int, mk func(kind, t
 		f.Trusted = true
 	case "inline":
 		f.Inline = true
+	case "inlineonly":
+		// the block only supplies loop invariants (checked in every inlining context); the function is not a unit of its own
+		f.Inline = true
+		f.InlineOnly = true
+	case "viewonly":
+		// the block only carries view-tagged (abstract) clauses, which are never checked against the body: no unit.
+		// (ignored when the block also has untagged clauses: those are verified as usual)
+		f.ViewOnly = true
 	case "pure":
 		f.Pure = true
 	case "lockmode":
@@ -1033,6 +1054,26 @@ func parseFuncClause(f *FuncContract, word, rest string, no int, mk func(kind, t
 				return err
 			}
 			ls.Decreases = c
+		case "assert":
+			c, err := mk("assert", r3, no)
+			if err != nil {
+				return err
+			}
+			ls.Asserts = append(ls.Asserts, c)
+		case "set":
+			k := strings.Index(r3, ":=")
+			if k < 0 {
+				return fmt.Errorf("loop ghost update needs :=")
+			}
+			t, err := ParseExpr(r3[:k])
+			if err != nil {
+				return err
+			}
+			v, err := ParseExpr(r3[k+2:])
+			if err != nil {
+				return err
+			}
+			ls.Sets = append(ls.Sets, &GhostUpd{t, v})
 		default:
 			return fmt.Errorf("unknown loop clause %q", kind)
 		}
@@ -1220,6 +1261,32 @@ func splitTop(s string) []string {
 }
 
 // ---- views ----
+
+// noUnit: the block is not a verification unit of its own (loop invariants for inlining contexts only, or abstract
+// view clauses only).
+func (f *FuncContract) noUnit() bool {
+	return f.InlineOnly || (f.ViewOnly && !f.hasTagged(""))
+}
+
+// hasTagged: the contract has at least one clause tagged with view v.
+func (f *FuncContract) hasTagged(v string) bool {
+	for _, c := range f.Requires {
+		if c.View == v {
+			return true
+		}
+	}
+	for _, c := range f.Ensures {
+		if c.View == v {
+			return true
+		}
+	}
+	for _, mv := range f.ModViews {
+		if mv == v {
+			return true
+		}
+	}
+	return false
+}
 
 func (f *FuncContract) hasView(v string) bool {
 	if v == "" {
